@@ -113,32 +113,34 @@ Theorem C19_frozen_cannot_vote : forall s id a ch,
 Proof. exact frozen_cannot_vote. Qed.
 Print Assumptions C19_frozen_staking_rejected.
 
-(* (4) frozen stays frozen: a frozen byzantine-fault record stays one under every operation other
-   than a release of that validator — outside the trigger [missed_scan_hits] ... *)
-Theorem C19_frozen_stays_frozen_partial : forall c s o s' ev a,
-  byz_frozen_m s a = true -> step c s o = (s', ev) -> o <> ORelease a ->
-  missed_scan_hits c s o a = false -> byz_frozen_m s' a = true.
+(* (4) frozen stays frozen: a frozen byzantine-fault record stays one under EVERY operation other
+   than a release of that validator (full statement since /repo 5d81591: the missed-votes scan
+   skips validators that already have a freeze record), and hence along every history that holds
+   no release of that validator *)
+Theorem C19_frozen_stays_frozen : forall c s o s' ev a,
+  byz_frozen_m s a = true -> step c s o = (s', ev) -> o <> ORelease a -> byz_frozen_m s' a = true.
 Proof. exact frozen_stays_frozen. Qed.
-Print Assumptions C19_frozen_stays_frozen_partial.
+Print Assumptions C19_frozen_stays_frozen.
+Theorem C19_frozen_until_released : forall c ops s a, byz_frozen_m s a = true ->
+  ~ In (ORelease a) ops -> byz_frozen_m (run c s ops).1 a = true.
+Proof. exact frozen_until_released. Qed.
+Print Assumptions C19_frozen_until_released.
 
 Definition cfg50 : Cfg := mkCfg 50 100 50 100 30 100 50 100 1 4 1000 16.
 Definition q4 : list (Z * Z) := [(1, 3000000); (2, 2999000); (3, 2998000); (4, 2997000)].
 Definition guilty_history : list Op :=
   [OBegin 2 30 []; OEnd q4 []; OBegin 6 90 []; OAllege 0 1 4 6; OVote 0 1 YES; OVote 0 2 YES; OEnd q4 []].
-(* ... and is false inside it: validator 4 is found guilty at height 6 (release time one day); the
-   missed-votes scan of BeginBlock 7 replaces the record; a release 30 s after the verdict succeeds
-   and the unstake after it is no longer rejected.  Known finding
-   C19.missed_scan_overwrites_byzantine, reproduced on the real code. *)
-Theorem C19_frozen_stays_frozen_refuted_1 : exists c stk ops o a,
-  let s := (run c (init_with stk) ops).1 in
-  byz_frozen_m s a = true /\ o <> ORelease a /\ missed_scan_hits c s o a = true /\
-  byz_frozen_m (step c s o).1 a = false /\
-  let s2 := (run c (step c s o).1 [ORelease a; OEnd q4 []; OBegin 8 120 []; ORelease a]).1 in
-  is_frozen s2 a = false /\ now s2 < 90 + releaseDays c * DAY.
-Proof.
-  exists cfg50, q4, guilty_history, (OBegin 7 105 [4]), 4.
-  vm_compute. repeat split; try reflexivity. discriminate.
-Qed.
+(* the former witness of C19.missed_scan_overwrites_byzantine (fixed by 5d81591), now an example of
+   the repaired behaviour: validator 4 is found guilty at height 6; the missed-votes scan of
+   BeginBlock 7 reaches it and leaves the record alone; releases 15 s and 30 s after the verdict are
+   refused and the validator is still frozen *)
+Example C19_missed_scan_keeps_byzantine_record :
+  let s := (run cfg50 (init_with q4) guilty_history).1 in
+  byz_frozen_m s 4 = true /\
+  byz_frozen_m (step cfg50 s (OBegin 7 105 [4])).1 4 = true /\
+  let r := run cfg50 (step cfg50 s (OBegin 7 105 [4])).1 [ORelease 4; OEnd q4 []; OBegin 8 120 [4]; ORelease 4] in
+  byz_frozen_m r.1 4 = true /\ r.2 = [EvTx false; EvTx false].
+Proof. vm_compute. repeat split; reflexivity. Qed.
 
 (* (5) release: only a frozen record, a byzantine-fault record only strictly after
    FrozenAt + ValidatorReleaseTime days; and the validator is unfrozen exactly when the release
@@ -169,30 +171,24 @@ Theorem C19_open_only_by_active : forall s id rep mal bh s' ev,
 Proof. exact allege_ok. Qed.
 Print Assumptions C19_open_only_by_active.
 
-(* (7) a frozen validator drops out of the validator set: frozen at the start of a block above
-   BlockVotesDiff => not active after that block's EndBlock, whatever transactions the block holds *)
-Theorem C19_frozen_drops_out_partial : forall c s h t low txs q ord a,
-  height_le_votes_diff c h = false -> 1 < h -> is_frozen s a = true -> a ∈ q.*1 ->
-  forallb is_tx_op txs = true ->
+(* (7) a frozen validator drops out of the validator set: frozen at the start of a block (any
+   height above 1; full statement since /repo 304e1e1) => not active after that block's EndBlock,
+   whatever transactions the block holds *)
+Theorem C19_frozen_drops_out : forall c s h t low txs q ord a,
+  1 < h -> is_frozen s a = true -> a ∈ q.*1 -> forallb is_tx_op txs = true ->
   is_active (run c s (OBegin h t low :: txs ++ [OEnd q ord])).1 a = false.
-Proof.
-  intros c s h t low txs q ord a H. apply frozen_drops_out. unfold height_le_votes_diff in H. lia.
-Qed.
-Print Assumptions C19_frozen_drops_out_partial.
+Proof. exact frozen_drops_out. Qed.
+Print Assumptions C19_frozen_drops_out.
 
 Definition cfg_diff8 : Cfg := mkCfg 50 100 50 100 30 100 50 100 1 8 1000 16.
-(* ... and stays in it while height <= BlockVotesDiff.  Known finding C19.height_le_votes_diff. *)
-Theorem C19_frozen_drops_out_refuted_1 : exists c stk ops h t q a,
-  let s := (run c (init_with stk) ops).1 in
-  height_le_votes_diff c h = true /\ 1 < h /\ is_frozen s a = true /\ a ∈ q.*1 /\
-  is_active (run c s [OBegin h t []; OEnd q []]).1 a = true.
-Proof.
-  exists cfg_diff8, q4,
-    [OBegin 2 30 []; OEnd q4 []; OBegin 3 45 []; OAllege 0 1 4 3; OVote 0 1 YES; OVote 0 2 YES; OEnd q4 []],
-    4, 60, q4, 4.
-  split; [vm_compute; reflexivity|]. split; [lia|]. split; [vm_compute; reflexivity|].
-  split; [|vm_compute; reflexivity]. apply elem_of_list_In. vm_compute. repeat first [left; reflexivity | right].
-Qed.
+(* the former witness of C19.height_le_votes_diff (fixed by 304e1e1), now an example of the repaired
+   behaviour: guilty at height 3 with BlockVotesDiff 8, inactive after EndBlock 4 *)
+Example C19_frozen_drops_out_below_votes_diff :
+  let s := (run cfg_diff8 (init_with q4)
+    [OBegin 2 30 []; OEnd q4 []; OBegin 3 45 []; OAllege 0 1 4 3; OVote 0 1 YES; OVote 0 2 YES; OEnd q4 []]).1 in
+  is_frozen s 4 = true /\ is_active s 4 = true /\
+  is_active (run cfg_diff8 s [OBegin 4 60 []; OEnd q4 []]).1 4 = false.
+Proof. vm_compute. repeat split; reflexivity. Qed.
 
 (* non-vacuity: the hypotheses of the theorems above are met by a concrete history in which a
    verdict is reached with votes of distinct active validators, the stake drops by the penalty and
